@@ -621,6 +621,9 @@ type PrivateCase struct {
 	Threads int    `json:"threads"`
 	Rounds  int    `json:"rounds"`
 	ValLen  int    `json:"val_len"` // length of the values (their content names thread and round)
+	// Batch > 0: every thread owns Batch keys and writes them all with one PutMany per round (a tight run of version
+	// assignments inside the storage), then reads them back with one GetMany
+	Batch int `json:"batch,omitempty"`
 }
 
 func runPrivate(c PrivateCase, st kvs.Storage) *vstat.Violation {
@@ -631,6 +634,7 @@ func runPrivate(c PrivateCase, st kvs.Storage) *vstat.Violation {
 	}
 	var wg sync.WaitGroup
 	start := make(chan struct{})
+	handed := make([][]string, c.Threads) // every version a successful write of the thread was given
 	for ti := 0; ti < c.Threads; ti++ {
 		wg.Add(1)
 		go func(ti int) {
@@ -644,6 +648,35 @@ func runPrivate(c PrivateCase, st kvs.Storage) *vstat.Violation {
 				return b
 			}
 			<-start
+			if c.Batch > 0 {
+				keys := make([]string, c.Batch)
+				for j := range keys {
+					keys[j] = fmt.Sprintf("private/%d/%d", ti, j)
+				}
+				for r := 0; r < c.Rounds && first.Load() == nil; r++ {
+					recs := make([]kvs.Record, c.Batch)
+					for j := range recs {
+						recs[j] = kvs.Record{Key: keys[j], Value: []byte(fmt.Sprintf("t%d-r%d-k%d", ti, r, j))}
+					}
+					if err := st.PutMany(ctx, recs); err != nil {
+						fail("thread %d round %d: PutMany of its own %d keys returned %v", ti, r, c.Batch, err)
+						return
+					}
+					got, err := st.GetMany(ctx, keys...)
+					if err != nil || len(got) != len(keys) {
+						fail("thread %d round %d: GetMany of its own %d keys returned %d entries, %v", ti, r, c.Batch, len(got), err)
+						return
+					}
+					for j, g := range got {
+						if want := fmt.Sprintf("t%d-r%d-k%d", ti, r, j); g == nil || string(g.Value) != want || g.Version == "" {
+							fail("thread %d round %d: only this thread writes key %q; after its PutMany GetMany returns %+v, want value %q", ti, r, keys[j], g, want)
+							return
+						}
+						handed[ti] = append(handed[ti], g.Version)
+					}
+				}
+				return
+			}
 			ver := ""
 			cur := []byte(nil)
 			for r := 0; r < c.Rounds && first.Load() == nil; r++ {
@@ -656,6 +689,7 @@ func runPrivate(c PrivateCase, st kvs.Storage) *vstat.Violation {
 						return
 					}
 					ver, cur = nv, v
+					handed[ti] = append(handed[ti], nv)
 				case r%5 == 4:
 					if err := st.Delete(ctx, key); err != nil {
 						fail("thread %d round %d: Delete of its own key returned %v", ti, r, err)
@@ -671,6 +705,7 @@ func runPrivate(c PrivateCase, st kvs.Storage) *vstat.Violation {
 						return
 					}
 					ver, cur = nr.Version, v
+					handed[ti] = append(handed[ti], nr.Version)
 				default:
 					nr, err := st.Put(ctx, kvs.Record{Key: key, Value: v})
 					if err != nil || nr.Version == "" || nr.Version == ver {
@@ -678,6 +713,7 @@ func runPrivate(c PrivateCase, st kvs.Storage) *vstat.Violation {
 						return
 					}
 					ver, cur = nr.Version, v
+					handed[ti] = append(handed[ti], nr.Version)
 				}
 				got, err := st.Get(ctx, key)
 				if err != nil || got.Version != ver || string(got.Value) != string(cur) || got.Key != key {
@@ -689,7 +725,20 @@ func runPrivate(c PrivateCase, st kvs.Storage) *vstat.Violation {
 	}
 	close(start)
 	wg.Wait()
-	return first.Load()
+	if v := first.Load(); v != nil {
+		return v
+	}
+	// "a version never handed out before": over all keys of the storage
+	seen := map[string]int{}
+	for ti, vs := range handed {
+		for _, ver := range vs {
+			if other, dup := seen[ver]; dup {
+				return vstat.V(c.Backend+":version-handed-out-twice", "version %s was given to a successful write of thread %d (key private/%d) and to one of thread %d (key private/%d): every successful write must get a version never handed out before", ver, other, other, ti, ti)
+			}
+			seen[ver] = ti
+		}
+	}
+	return nil
 }
 
 func trunc(b []byte) string {
@@ -705,12 +754,21 @@ func TestC02Private(t *testing.T) {
 	rapid.Check(t, func(rt *rapid.T) {
 		c := PrivateCase{Backend: rapid.SampledFrom([]string{"redis", "redis", "inmem"}).Draw(rt, "backend"), Threads: rapid.IntRange(2, vstat.Pick(48, 64)).Draw(rt, "threads"),
 			Rounds: rapid.IntRange(20, vstat.Pick(300, 600)).Draw(rt, "rounds"), ValLen: rapid.SampledFrom([]int{0, 8, 100, 2000}).Draw(rt, "valLen")}
+		if rapid.IntRange(0, 2).Draw(rt, "batches") == 0 {
+			c.Batch = rapid.SampledFrom([]int{20, 100, 200}).Draw(rt, "batch")
+			c.Threads = min(c.Threads, 24)
+			c.Rounds = min(c.Rounds, 4000/c.Batch)
+		}
 		if budget.spent("C02") {
 			return
 		}
 		v := runPrivate(c, storageFor(rt, c.Backend))
 		st.Report(rt, "TestC02Private", c, v)
-		st.Case(c.Threads >= 4, vstat.Hash(c), func() any { return c }, "private_keys:"+c.Backend)
-		st.AddExtra("private_key_calls", int64(c.Threads*c.Rounds*2))
+		cl := []string{"private_keys:" + c.Backend}
+		if c.Batch > 0 {
+			cl = append(cl, "private_keys_written_in_batches:"+c.Backend)
+		}
+		st.Case(c.Threads >= 4, vstat.Hash(c), func() any { return c }, cl...)
+		st.AddExtra("private_key_calls", int64(c.Threads*c.Rounds*2*max(1, c.Batch)))
 	})
 }
